@@ -175,6 +175,15 @@ theorem C09_code_merge_versions (ksort : List E → List E)
     GenKway.merge (fun (e : E) => e.key) (fun e => e.tomb) Kway.less ksort dflt true ins = mergeVersions ins :=
   KwayTie.merge_eq ksort hk dflt ins hs
 
+/-- the other mode of the same translated function (`kway.Merge`, `keepTombstone = false`, used by scans and not by compaction):
+    the merged versions without the tombstones — compaction must not use it (it would resurrect shadowed values), and
+    `C09_code_compaction_order` shows that it calls `MergeVersions` -/
+theorem C09_code_merge_without_tombstones (ksort : List E → List E)
+    (hk : ∀ l : List E, (l.map (·.key)).Nodup → SortedE vlt (ksort l) ∧ ∀ x, x ∈ ksort l ↔ x ∈ l)
+    (dflt : E) (ins : List (List E)) (hs : ∀ l ∈ ins, SortedE vlt l) :
+    GenKway.merge (fun (e : E) => e.key) (fun e => e.tomb) Kway.less ksort dflt false ins = LSM.merge ins :=
+  KwayTie.merge_drop_eq ksort hk dflt ins hs
+
 /-- the two translated steps of a compaction in the order `compactLN` / `compactL0` run them (`C09_code_compaction_order`):
     the translated `discardStaleEntries` applied to the translated `MergeVersions` of the input blocks answers every
     permitted read as the inputs did, next to any other tables -/
@@ -210,5 +219,6 @@ example :
 #print axioms C09_code_compaction_order
 #print axioms C09_code_compaction_order_L0
 #print axioms C09_code_merge_versions
+#print axioms C09_code_merge_without_tombstones
 #print axioms C09_code_merge_then_discard
 end Props
